@@ -996,9 +996,11 @@ impl Element {
                     }
                     Value::Dynamic { expression, .. } => {
                         let p = expression.to_proc_gen_prepare(w, scopes)?;
+                        // (the name is the string form of the value, and `0` is a name)
                         w.expr_stmt(|w| {
-                            write!(w, "{}=", var_key)?;
+                            write!(w, "{}=Y(", var_key)?;
                             p.value_expr(w)?;
+                            write!(w, ")")?;
                             Ok(())
                         })?;
                     }
